@@ -145,7 +145,7 @@ class CBackendModule:
             ref = ref or self.ref
             sn, pn, mn = list(ref.states), list(ref.params), list(ref.assigns)
             reqs = [("N", 0, n) for n in sn] + [("N", 1, n) for n in pn] + [("N", 2, n) for n in mn]
-            r, info = self.cm.run("gcc", reqs)
+            r, info = self.cm.run("gcc" if "gcc" in self.cm.bins else next(iter(self.cm.bins)), reqs)
             self.info["consts"] = info["consts"]
             self._maps = {
                 "state": dict(zip(sn, r[: len(sn)])),
